@@ -50,12 +50,20 @@ func VerifC11Split() {
 
 var vC11SmallLens = []int{-5, 0, 1, 12}
 
-// VerifC11Default: SplitLen below 13 (or unset) means 450.
+// VerifC11Default: SplitLen below 13 (or unset) means 450. The first 450-K
+// bytes are a fixed filler without split points (a fully symbolic 451-byte
+// text was tried and the solver timed out); the K bytes before offset 450 and
+// the bytes after it are symbolic, so every layout around the cut is covered.
 func VerifC11Default() {
 	vSetOpt("symIndex", 1)
 	sl := vC11SmallLens[vLen("sl", 0, len(vC11SmallLens)-1)]
-	n := 450 + vLen("over", 0, vParam("OVER", 1))
-	msg := vGenText("msg", n)
+	K := vParam("K", 8)
+	filler := make([]byte, 450-K)
+	for i := range filler {
+		filler[i] = 'a'
+	}
+	tail := vGenText("tail", K+vLen("over", 0, vParam("OVER", 2)))
+	msg := string(filler) + tail
 	pieces := splitMessage(msg, sl)
 	vCheckPieces(msg, pieces, 450)
 	vReach("end")
